@@ -233,12 +233,19 @@ Proof.
 Qed.
 
 (* "--body", body not empty; the cursor stands behind the two dashes *)
-Lemma read_long_spec r i body p io : body <> [] -> wf_str body -> wf_argv r ->
+Lemma attach_back_ok c k len b :
+  (k <= c_pos c)%nat -> (len <= k + length (c_arg c))%nat -> attach_back c k len b = Ok b.
+Proof.
+  intros H1 H2. unfold attach_back.
+  apply Nat.leb_le in H1, H2. rewrite H1, H2. reflexivity.
+Qed.
+
+Lemma read_long_spec r i body p io : (2 <= p)%nat -> body <> [] -> wf_str body -> wf_argv r ->
   exists c' ob it, read_long opts ch_dash ch_dash (Build_cursor r i body p io false) = Ok (c', Some ob) /\
     ob = obs_of_item it /\ long_items body r = it :: items_of c' /\ Inv c' /\
     (cweight c' <= length body + weight r)%nat.
 Proof.
-  intros Hne Hw Hr. pose proof (wf_str_nz body Hw) as Hz.
+  intros Hp Hne Hw Hr. pose proof (wf_str_nz body Hw) as Hz.
   destruct (split_eq body) as [name val] eqn:Es.
   pose proof (split_eq_app body name val Es) as Hbody.
   set (vr := match val with Some v => ch_eq :: v | None => [] end) in Hbody.
@@ -259,8 +266,10 @@ Proof.
   (* the "unknown option" exit *)
   assert (Hunk :
     (a2 <- adv body (length name) ;; l2 <- c_strlen a2 ;;
+     a <- attach_back (Build_cursor r i body p io false) 2 (length name + l2 + 2)
+            (ch_dash :: ch_dash :: firstn (length name + l2) body) ;;
      c' <- adv_cur (Build_cursor r i body p io false) (length name + l2) ;;
-     Ok (c', Some (ch_qmark, ch_dash :: ch_dash :: firstn (length name + l2) body)))
+     Ok (c', Some (ch_qmark, a)))
     = Ok (Build_cursor r i [] (p + length body) io false, Some (ch_qmark, ch_dash :: ch_dash :: body))).
   { rewrite Hbody at 1. rewrite adv_app. cbn [bind].
     assert (Hv : nz vr).
@@ -268,7 +277,8 @@ Proof.
     rewrite (c_strlen_spec vr Hv). cbn [bind].
     assert (Htot : (length name + length vr = length body)%nat).
     { rewrite Hbody at 1. rewrite app_length. reflexivity. }
-    rewrite Htot. unfold adv_cur. cbn [c_arg c_rest c_idx c_pos c_inOpt c_skipOpt].
+    rewrite Htot. rewrite attach_back_ok by (cbn [c_pos c_arg]; lia). cbn [bind].
+    unfold adv_cur. cbn [c_arg c_rest c_idx c_pos c_inOpt c_skipOpt].
     rewrite adv_len. cbn [bind]. rewrite firstn_all. reflexivity. }
   subst vr.
   assert (Hinv_end : forall q, Inv (Build_cursor r i [] q io false)).
@@ -305,6 +315,7 @@ Proof.
            rewrite peek_nil0. cbn [bind]. cbn [Z.eqb negb].
            destruct r as [|s tl].
            ++ cbn [bind hd_error].
+              rewrite attach_back_ok by (cbn [c_pos c_arg length]; lia). cbn [bind].
               eexists _, _, (IMissing (ch_dash :: ch_dash :: body)). split; [reflexivity|].
               split; [reflexivity|]. split; [reflexivity|].
               split; [apply Hinv_end|apply Hw_end].
@@ -382,6 +393,7 @@ Proof.
                  rewrite peek_nil0. cbn [bind]. change (0 =? ch_dash) with false. cbn iota.
                  unfold adv_cur. cbn [c_arg c_rest c_idx c_pos c_inOpt c_skipOpt].
                  rewrite adv_consS, adv_0. cbn [bind c_arg]. rewrite peek_nil0. cbn [bind]. cbn [Z.eqb].
+                 rewrite attach_back_ok by (cbn [c_pos c_arg length]; lia). cbn [bind].
                  eexists _, _. split; [reflexivity|]. exists (INon [ch_dash]).
                  split; [reflexivity|]. split; [reflexivity|]. split; [apply Hinv_end|apply Hw_end].
               ** rewrite peek_cons0. cbn [bind].
@@ -412,7 +424,7 @@ Proof.
                          apply wf_cons_inv in Hs'' as Hzz. destruct Hzz as [Hzz _].
                          destruct (z =? 0) eqn:Ez; [apply Z.eqb_eq in Ez; lia|].
                          destruct (read_long_spec tl (S i) (z :: s''') (0 + 2) false) as [c' [ob [it [H1 [H2 [H3 [H4 H5]]]]]]];
-                           [discriminate|exact Hs''|exact Htl|].
+                           [lia|discriminate|exact Hs''|exact Htl|].
                          rewrite H1. eexists _, _. split; [reflexivity|]. exists it.
                          split; [exact H2|].
                          split; [unfold items_of at 1; cbn [c_arg c_rest c_skipOpt];
